@@ -271,7 +271,7 @@ def run(ctx):
             if idx % ctx.nshards != ctx.shard:
                 continue
             hist = list(hist)
-            d = run_history(ctx, hist, SMALL, "exhaustive")
+            d = ctx.guard("exhaustive", hist, run_history, ctx, hist, SMALL, "exhaustive")
             ctx.case("exhaustive", hist, d)
             if Inv.broken:
                 drain_invariant(ctx, "exhaustive", hist)
@@ -287,7 +287,7 @@ def run(ctx):
         dom = ALL if r.random() < 0.7 else r.sample(ALL, 3)
         al = alpha5 if dom is ALL else alphabet(dom)
         hist = [r.choice(al) for _ in range(r.randint(3, maxl))]
-        d = run_history(ctx, hist, ALL, "random")
+        d = ctx.guard("random", hist, run_history, ctx, hist, ALL, "random")
         ctx.case("random", hist, d)
         if Inv.broken:
             drain_invariant(ctx, "random", hist)
@@ -295,7 +295,7 @@ def run(ctx):
     for i in ctx.mine(ctx.n(3000, 60000)):
         r = ctx.rng("ctor", i)
         pairs = [[r.choice(ALL), r.choice(ALL)] for _ in range(r.randint(0, 5))]
-        run_ctor(ctx, pairs)
+        ctx.guard("ctor", pairs, run_ctor, ctx, pairs)
         ctx.case("ctor", pairs, len({p[0] for p in pairs}) >= 2)
     drain_invariant(ctx, "final", None)
 
